@@ -35,7 +35,9 @@ fn main() {
         i += 1;
     }
     // panics are data here (caught and classified); keep stderr quiet
-    std::panic::set_hook(Box::new(|_| {}));
+    if std::env::var("VH_VERBOSE_PANIC").is_err() {
+        std::panic::set_hook(Box::new(|_| {}));
+    }
     let t0 = Instant::now();
     let Some(res) = run(&id, &cfg) else {
         eprintln!("unknown property {id}");
